@@ -100,8 +100,13 @@ func (s *addrStream) Gen(r *tr.Rng) *tr.Op {
 				}
 			}
 		}
+		// a mutated copy of the handed-out script (witness version, push length, a program byte, the last byte) must
+		// never verify: the verifier accepts exactly the handed-out script and no other
+		mutpos := tr.Pick(r, 0, 0, 0, 1, 2, 17, 33, 21)
+		mutval := tr.Pick(r, 0x00, 0x51, 0x52, 0x60, 0x20, 0x14, 0xff, 0x6a)
+		cls += fmt.Sprintf("/mut@%d", mutpos)
 		s.push(tr.NewOp(cls, "addr.deposit", "net", net, "version", version, "kind", k1.Kind, "key", tr.Hex(key1), "kind2", k2.Kind, "key2", tr.Hex(k2.Pub),
-			"evm", tr.Hex(evm), "evm2", tr.Hex(evm2), "magic", tr.Hex(magic)))
+			"evm", tr.Hex(evm), "evm2", tr.Hex(evm2), "magic", tr.Hex(magic), "mutpos", mutpos, "mutval", mutval))
 	case c < 85: // withdrawal address decoding
 		net := netNames[r.Intn(4)]
 		from := net
